@@ -189,20 +189,35 @@ Definition triplet_inert (pkt : N) (p : str) : bool :=
 (* the character set designation bits of a first triplet, as the reader keys its table with them *)
 Definition triplet_key (t : N) : N := N.land (N.shiftr (N.land t 16256) 10) 255.
 Definition triplet_of (p : str) : N := N.lor (N.lor (N.shiftl (nth 2 p 0) 16) (N.shiftl (nth 1 p 0) 8)) (nth 0 p 0).
-(* an X/28 (format 1) or M/29 packet of the selected magazine with designation code 0 or 4 whose first triplet keeps
-   the default character set designation *)
-Definition neutral_unit (mag0 : N) (u : N * str) : bool :=
+(* an X/28 (format 1) or M/29 packet of the selected magazine with designation code 0 or 4: it designates a character
+   set through the bits 7..13 of its first triplet (read as three raw bytes: no Hamming 24/18, as the code has it) *)
+Definition desig_ok (mag0 : N) (u : N * str) : bool :=
   match unit_addr u with
   | Some (mag, pkt, p) =>
     (mag =? mag0) && ((pkt =? 28) || (pkt =? 29)) && negb (Nat.ltb (length p) 1)
     && match ham84_dec (nth 0 p 0) with
        | Some dc => ((dc =? 0) || (dc =? 4)) && negb (Nat.ltb (length (tl p)) 3)
                     && negb ((pkt =? 28) && (0 <? N.land (triplet_of (tl p)) 15))
-                    && (triplet_key (triplet_of (tl p)) =? 0)
        | None => false
        end
   | None => false
   end.
+(* its packet number and first triplet *)
+Definition desig_of (u : N * str) : N * N :=
+  match unit_addr u with Some (_, pkt, p) => (pkt, triplet_of (tl p)) | None => (0, 0) end.
+(* one that keeps the default designation *)
+Definition neutral_unit (mag0 : N) (u : N * str) : bool := desig_ok mag0 u && (triplet_key (snd (desig_of u)) =? 0).
+
+(* The designations on record: (last X/28 triplet, last M/29 triplet).  While our page is being received both kinds are
+   recorded; otherwise only M/29 (an X/28 belongs to a page, and no page of ours is open). *)
+Definition dstate : Type := (option N * option N)%type.
+Definition desig_recv (mag0 : N) (st : dstate) (u : N * str) : dstate :=
+  if desig_ok mag0 u then (if fst (desig_of u) =? 28 then (Some (snd (desig_of u)), snd st) else (fst st, Some (snd (desig_of u)))) else st.
+Definition desig_idle (mag0 : N) (st : dstate) (u : N * str) : dstate :=
+  if desig_ok mag0 u then (if fst (desig_of u) =? 28 then st else (fst st, Some (snd (desig_of u)))) else st.
+(* the triplet that decides the character set: the X/28 one if any was recorded, else the M/29 one, else the default *)
+Definition dstate_triplet (st : dstate) : N :=
+  match fst st with Some t => t | None => match snd st with Some t => t | None => 0 end end.
 
 (* classes of data units relative to the selected page (mag0, pn0) *)
 Definition is_our_header (mag0 : N) (pn0 : Z) (cs : N) (u : N * str) : bool :=
@@ -277,7 +292,8 @@ Record sched := mkSched { s_mag : N; s_pn : Z; s_insts : list inst }.
 
 (* the character table of national option cs under the default designation: the G0 set with the option's 13
    characters substituted, as the generated tables have it *)
-Definition g0_table (cs : N) : list str := match charset_for 0 cs with Ok c => c | _ => [] end.
+Definition g_table (tr cs : N) : list str := match charset_for tr cs with Ok c => c | _ => [] end.
+Definition g0_table (cs : N) : list str := g_table 0 cs.
 
 (* the lines of an instance: its rows in row order, each row's runs, rows without text dropped *)
 Fixpoint lines_for (c : list str) (rows : list (N * rowspec)) (keys : list N) : list (list trunT) :=
@@ -294,17 +310,20 @@ Definition inst_lines (c : list str) (rows : list (N * rowspec)) : list (list tr
 
 (* the cues a schedule denotes: one per instance with rows, from its presentation time to the next instance's
    (the last presentation time for the final one), relative to the first presentation time *)
-Fixpoint cues_from (first last : Z) (l : list inst) : list tcue :=
+(* tr: the first triplet of the character set designation in force when the pages are parsed, which the reader does after
+   the whole stream has been read: the LAST designation received applies to every page, earlier ones included (0 = none
+   received: default designation) *)
+Fixpoint cues_from (tr : N) (first last : Z) (l : list inst) : list tcue :=
   match l with
   | [] => []
   | i :: r =>
     let en := match r with j :: _ => i_t j | [] => last end in
     match i_rows i with
-    | [] => cues_from first last r
-    | _ => mkTcue (i_t i - first) (en - first) (inst_lines (g0_table (i_cs i)) (i_rows i)) :: cues_from first last r
+    | [] => cues_from tr first last r
+    | _ => mkTcue (i_t i - first) (en - first) (inst_lines (g_table tr (i_cs i)) (i_rows i)) :: cues_from tr first last r
     end
   end.
-Definition cues_of (s : sched) (first last : Z) : list tcue := cues_from first last (s_insts s).
+Definition cues_of (s : sched) (first last : Z) (tr : N) : list tcue := cues_from tr first last (s_insts s).
 
 (* ---- multiplexing choices ---- *)
 Definition tunit := (Z * (N * str))%type.     (* a data unit with the time of the PES packet it travels in *)
@@ -330,7 +349,7 @@ Fixpoint body_ok (mag0 : N) (pn0 : Z) (rows : list (N * rowspec)) (body : list (
     | (row, sp) :: rs => is_our_row mag0 row (row_cells sp) u && body_ok mag0 pn0 rs r
     | [] => false
     end
-  | (_, (false, u)) :: r => (benign mag0 pn0 u || neutral_unit mag0 u) && body_ok mag0 pn0 rows r
+  | (_, (false, u)) :: r => (benign mag0 pn0 u || desig_ok mag0 u) && body_ok mag0 pn0 rows r
   end.
 Fixpoint nodupN (l : list N) : bool := match l with [] => true | x :: r => negb (nmem x r) && nodupN r end.
 Definition inst_mux_ok (mag0 : N) (pn0 : Z) (im : inst * imux) : bool :=
@@ -339,14 +358,14 @@ Definition inst_mux_ok (mag0 : N) (pn0 : Z) (im : inst * imux) : bool :=
   && nodupN (map fst (i_rows i)) && forallb (fun r => rowspec_ok (snd r) && (fst r <? 256)) (i_rows i)
   && body_ok mag0 pn0 (i_rows i) (im_body m)
   && match im_tail m with
-     | Some (tm, dead) => is_terminator mag0 pn0 (snd tm) && forallb (fun x => dead_ok mag0 pn0 (snd x) || neutral_unit mag0 (snd x)) dead
+     | Some (tm, dead) => is_terminator mag0 pn0 (snd tm) && forallb (fun x => dead_ok mag0 pn0 (snd x) || desig_ok mag0 (snd x)) dead
      | None => true
      end.
 (* the decidable class of multiplexings, for a reader that is given the page *)
 Definition mux_ok (s : sched) (m : mux) : bool :=
   (1 <=? s_mag s) && (s_mag s <=? 8) && (0 <=? s_pn s)%Z && (s_pn s <=? 99)%Z
   && Nat.eqb (length (s_insts s)) (length (mx_insts m))
-  && forallb (fun x => dead_ok (s_mag s) (s_pn s) (snd x) || neutral_unit (s_mag s) (snd x)) (mx_pre m)
+  && forallb (fun x => dead_ok (s_mag s) (s_pn s) (snd x) || desig_ok (s_mag s) (snd x)) (mx_pre m)
   && forallb (inst_mux_ok (s_mag s) (s_pn s)) (combine (s_insts s) (mx_insts m)).
 (* and for a reader that has to find the page: nothing carrying the subtitle flag in front of our first header,
    which carries it *)
@@ -359,6 +378,18 @@ Definition mux_ok_auto (s : sched) (m : mux) : bool :=
      | [] => true
      end
   && forallb (inst_mux_ok (s_mag s) (s_pn s)) (combine (s_insts s) (mx_insts m)).
+
+(* the designation in force after the whole stream (the page is given: M/29 packets count from the start; the page is
+   auto-detected: nothing counts before the first header of ours has selected the magazine) *)
+Definition desig_inst (mag0 : N) (st : dstate) (im : imux) : dstate :=
+  let st1 := fold_left (fun a x => desig_recv mag0 a (snd (snd x))) (im_body im) st in
+  match im_tail im with
+  | Some (_, dead) => fold_left (fun a x => desig_idle mag0 a (snd x)) dead st1
+  | None => st1
+  end.
+Definition desig_final (auto : bool) (mag0 : N) (m : mux) : N :=
+  let st0 := if auto then (None, None) else fold_left (fun a x => desig_idle mag0 a (snd x)) (mx_pre m) (None, None) in
+  dstate_triplet (fold_left (desig_inst mag0) (mx_insts m) st0).
 
 (* the delivered list.  What the demuxer hands over for one PES packet of the teletext PID is one of:
    - PUnits t ident us trail: an EBU teletext payload (data identifier 0x10..0x1f) with presentation time t carrying the
